@@ -1,0 +1,61 @@
+/*
+ * Copyright (C) 2024 Nuts community
+ *
+ * This program is free software: you can redistribute it and/or modify
+ * it under the terms of the GNU General Public License as published by
+ * the Free Software Foundation, either version 3 of the License, or
+ * (at your option) any later version.
+ *
+ * This program is distributed in the hope that it will be useful,
+ * but WITHOUT ANY WARRANTY; without even the implied warranty of
+ * MERCHANTABILITY or FITNESS FOR A PARTICULAR PURPOSE.  See the
+ * GNU General Public License for more details.
+ *
+ * You should have received a copy of the GNU General Public License
+ * along with this program.  If not, see <https://www.gnu.org/licenses/>.
+ *
+ */
+
+package discovery
+
+import (
+	"context"
+	"encoding/json"
+	"testing"
+
+	"github.com/lestrrat-go/jwx/v2/jwt"
+	"github.com/nuts-foundation/go-did/vc"
+	"github.com/nuts-foundation/nuts-node/storage"
+	"github.com/stretchr/testify/assert"
+	"github.com/stretchr/testify/require"
+	"go.uber.org/mock/gomock"
+)
+
+// A credential without an ID can't be stored (the credential store keys on it). It must be refused, not dereferenced.
+func Test_credentialWithoutID(t *testing.T) {
+	storageEngine := storage.NewTestStorageEngine(t)
+	require.NoError(t, storageEngine.Start())
+	var cred vc.VerifiableCredential
+	require.NoError(t, json.Unmarshal([]byte(`{"@context":["https://www.w3.org/2018/credentials/v1"],"type":["VerifiableCredential","TestCredential"],
+		"issuer":"did:example:authority","issuanceDate":"2024-01-01T00:00:00Z","credentialSubject":{"id":"did:example:alice"}}`), &cred))
+	require.Nil(t, cred.ID)
+	vp := createPresentationCustom(aliceDID, func(claims map[string]interface{}, _ *vc.VerifiablePresentation) {
+		claims[jwt.AudienceKey] = []string{testServiceID}
+	}, cred)
+
+	t.Run("store refuses it", func(t *testing.T) {
+		m, _ := setupModule(t, storageEngine)
+		_, err := m.store.add(testServiceID, vp, testSeed, 1)
+		assert.ErrorIs(t, err, errCredentialWithoutID)
+		assert.ErrorIs(t, err, ErrInvalidPresentation)
+	})
+	t.Run("registration is refused as invalid", func(t *testing.T) {
+		m, testContext := setupModule(t, storageEngine)
+		testContext.verifier.EXPECT().VerifyVP(gomock.Any(), gomock.Any(), gomock.Any(), gomock.Any()).AnyTimes()
+		err := m.Register(context.Background(), testServiceID, vp)
+		assert.ErrorIs(t, err, errCredentialWithoutID)
+		assert.ErrorIs(t, err, ErrInvalidPresentation)
+		_, _, timestamp, _ := m.Get(context.Background(), testServiceID, 0)
+		assert.Equal(t, 0, timestamp)
+	})
+}
